@@ -77,7 +77,7 @@ func TestC14(t *testing.T) {
 			plain := func(name string) func(*rapid.T) {
 				return func(rt *rapid.T) {
 					doc := c14Doc(rt)
-					do(core.Case{Kind: name, In: doc, Ints: []int64{0, 0, 0, 0, repeat(rt, doc)}})
+					do(core.Case{Kind: name, In: doc, Ints: []int64{0, 0, 0, 0, repeat(rt, doc), int64(rapid.IntRange(0, 3).Draw(rt, "alias") % 3)}})
 				}
 			}
 			handler := func(name string) func(*rapid.T) {
@@ -90,10 +90,30 @@ func TestC14(t *testing.T) {
 					if rapid.IntRange(0, 2).Draw(rt, "reentrant?") > 0 {
 						re = int64(rapid.IntRange(1, 5).Draw(rt, "reentry"))
 					}
-					do(core.Case{Kind: name, In: doc, Ints: []int64{mode, k, int64(bits), re, repeat(rt, doc)}})
+					do(core.Case{Kind: name, In: doc, Ints: []int64{mode, k, int64(bits), re, repeat(rt, doc), int64(rapid.IntRange(0, 3).Draw(rt, "alias") % 3)}})
 				}
 			}
+			// the previous document again, same length, one byte changed, written over the old one
+			// in the arena (what a caller reading fixed-size messages into one buffer does)
+			overwrite := func(rt *rapid.T) {
+				if len(hist) == 0 || len(hist[len(hist)-1].In) == 0 || len(hist[len(hist)-1].In) > 4096 {
+					rt.Skip("no previous document")
+				}
+				prev := hist[len(hist)-1]
+				doc := append([]byte(nil), prev.In...)
+				pos := rapid.IntRange(0, len(doc)-1).Draw(rt, "pos")
+				doc[pos] = gen.HostileBytes[rapid.IntRange(0, len(gen.HostileBytes)-1).Draw(rt, "byte")]
+				name := c14Funcs[rapid.IntRange(0, len(c14Funcs)-1).Draw(rt, "fn")]
+				ints := append([]int64(nil), prev.Ints...)
+				for len(ints) < 6 {
+					ints = append(ints, 0)
+				}
+				ints[4], ints[5] = 1, 1
+				do(core.Case{Kind: name, In: doc, Ints: ints})
+			}
 			rt.Repeat(map[string]func(*rapid.T){
+				"overwrite":          overwrite,
+				"overwrite2":         overwrite,
 				"Valid":              plain("Valid"),
 				"SkipValue":          plain("SkipValue"),
 				"SkipValueFast":      plain("SkipValueFast"),
